@@ -574,6 +574,81 @@ func C12(tier Tier) int {
 		}
 		walk()
 	}
+	// two builders used side by side: every interleaving of their operations up to the bound; each
+	// must produce what it alone was given
+	{
+		depth := 5
+		if tier.Thorough() {
+			depth = 6
+		}
+		const per = 6 // Func f, Bytes 0a, Bytes ff00, Clear, SetLast 0b, b = NewBuilder()
+		var seq []int
+		var walk2 func()
+		walk2 = func() {
+			bs := [2]interface {
+				ToString() string
+				GetLast() string
+			}{}
+			b0, b1 := txDataBuilder.NewBuilder(), txDataBuilder.NewBuilder()
+			type model struct {
+				fn    string
+				elems []string
+			}
+			var m [2]model
+			for _, o := range seq {
+				who, op := o/per, o%per
+				b := b0
+				if who == 1 {
+					b = b1
+				}
+				switch op {
+				case 0:
+					b.Func("f")
+					m[who].fn = "f"
+				case 1:
+					b.Bytes([]byte{0x0a})
+					m[who].elems = append(m[who].elems, "0a")
+				case 2:
+					b.Bytes([]byte{0xff, 0})
+					m[who].elems = append(m[who].elems, "ff00")
+				case 3:
+					b.Clear()
+					m[who] = model{}
+				case 4:
+					b.SetLast("0b")
+					if len(m[who].elems) == 0 {
+						m[who].elems = []string{"0b"}
+					} else {
+						m[who].elems = append(append([]string{}, m[who].elems[:len(m[who].elems)-1]...), "0b")
+					}
+				case 5:
+					if who == 0 {
+						b0 = txDataBuilder.NewBuilder()
+					} else {
+						b1 = txDataBuilder.NewBuilder()
+					}
+					m[who] = model{}
+				}
+			}
+			bs[0], bs[1] = b0, b1
+			for who := 0; who < 2; who++ {
+				want := renderModel(m[who].fn, m[who].elems)
+				if got := bs[who].ToString(); got != want {
+					rt.Fail(P, "roundtrip", "two-builders", fmt.Sprintf("two builders used side by side, operations %v (builder = op/6; 0 Func, 1-2 Bytes, 3 Clear, 4 SetLast, 5 new builder): builder %d produces %q, it alone was given %q", seq, who, got, want), "case", fmt.Sprintf("two%v", seq))
+				}
+			}
+			rt.Case(fmt.Sprintf("rt-two-builders:len%d", len(seq)))
+			if len(seq) == depth {
+				return
+			}
+			for o := 0; o < 2*per; o++ {
+				seq = append(seq, o)
+				walk2()
+				seq = seq[:len(seq)-1]
+			}
+		}
+		walk2()
+	}
 	// typed builder elements
 	typed := txDataBuilder.NewBuilder().Func("f").Str("tok").Int(0).Int(255).Int64(1 << 40).BigInt(new(big.Int).Lsh(big.NewInt(1), 64)).Byte(0).Byte(0x40).Bool(true).Bool(false)
 	if fn, args, err := c12Call.ParseData(typed.ToString()); err != nil || fn != "f" || !argsEqStrict(args, [][]byte{[]byte("tok"), {}, {255}, {1, 0, 0, 0, 0, 0}, {1, 0, 0, 0, 0, 0, 0, 0, 0}, {0}, {0x40}, []byte("true"), []byte("false")}) {
